@@ -10,6 +10,17 @@ from props import c01
 REPORTING = open(os.path.join(REPO, "derive/tests/reporting.pest")).read() if os.path.exists(os.path.join(REPO, "derive/tests/reporting.pest")) else ""
 
 
+def reporting_shapes():
+    """several attempts at one position, mixing negated and plain rule references, nested in failing rules"""
+    out = []
+    defs = 'b = { "q" }\nc = { "q" ~ "r"? }\nd = { !b ~ "x" | c ~ "y" }'
+    for body in ['!b ~ "x" | !c ~ "y"', '!b ~ "x" | c', '&b ~ "x" | !c ~ "y"', '(!b | c) ~ "x"', '!(b | c) ~ ANY', '!b ~ !c ~ "x"', 'b | c | !b ~ "x"', 'd | "z"', '!d ~ ANY | b ~ "x"',
+                 '(b | c) ~ "x" | b ~ "y"', '!b ~ "x" | d', '&(!b ~ ANY) ~ c', '!(!b ~ "x") ~ c ~ "y"', 'b? ~ !c ~ "x"', '(!b ~ ANY)* ~ c ~ "z"']:
+        for mod in ("", "_", "@", "$"):
+            out.append(f"a = {mod}{{ {body} }}\n{defs}")
+    return out
+
+
 def judge(vm, rlog):
     """vm: {'at','P','N'} ; rlog: [(rule, start, ok, reportable, la)] -> list of problems (soundness conditions of the statement)"""
     probs = []
@@ -36,7 +47,7 @@ def run(ctx):
     known, _ = load_known("C08")
     N = int(os.environ.get("VERIF_C08_N", "3" if ctx.quick else "5"))
     count = int(os.environ.get("VERIF_C08_GRAMMARS", "120" if ctx.quick else "1000"))
-    gs = gramgen.family(ctx.seed, count)
+    gs = reporting_shapes() + gramgen.family(ctx.seed, count)
     starts = {g: ["a", "b"] for g in gs}
     if REPORTING:
         rep = re.sub(r"//[^\n]*", "", REPORTING).strip()
@@ -74,6 +85,9 @@ def run(ctx):
         if vm["res"] != "ERR" or "P" not in vm or row["ref"]["res"] in ("PANIC", "NONTERM"): continue
         failing += 1
         probs = judge(vm, row.get("rlog") or [])
+        rr = row.get("rreport")
+        if rr is not None and (vm["at"], sorted(set(vm["P"])), sorted(set(vm["N"]))) != (rr[0], rr[1], rr[2]):
+            probs.append(f"the statement's reporting rule prescribes position {rr[0]}, expected {rr[1]}, unexpected {rr[2]}")
         if row["ref"]["res"] != "ERR": probs.append("reference accepts although the VM fails (C01)") if False else None
         if probs:
             g = acc[gi][0]
